@@ -33,7 +33,7 @@ DiscreteClauses(r) ==
 
 (* ---- law ---- *)
 VarOk(r, v) == /\ Small(v.g)
-               /\ IF r.fixed THEN Small(v.ab) /\ v.dd = 0 ELSE DeltaClose(v.dd, r.dq) /\ AbClose(v.ab)
+               /\ IF r.fixed THEN Small(v.ab) /\ v.dd = 0 ELSE DeltaClose(v.dd, r.dq) /\ AbClose(v.abl, r.dq)
 Law(r, tag) == \A i \in 1..Len(r.variants) : r.variants[i].name = tag => VarOk(r, r.variants[i])
 LawClauses(r) ==
   IF r.exc # "" THEN << <<"UnexpectedException", FALSE>> >>
@@ -60,7 +60,7 @@ LawClauses(r) ==
             /\ FreeHistories \subseteq {r.fhist[i].name : i \in 1..Len(r.fhist)}
             /\ \A i \in 1..Len(r.fhist) :
                  LET v == r.fhist[i] IN
-                   /\ Small(v.g) /\ DeltaClose(v.dd, r.dq) /\ AbClose(v.ab)
+                   /\ Small(v.g) /\ DeltaClose(v.dd, r.dq) /\ AbClose(v.abl, r.dq)
                    /\ LocalMinD(v.em, v.ep, v.emdef, v.epdef, v.dq)>>,
     <<"ObjectHistoryIndependent",
         r.fixed => /\ ObjectHistories \subseteq {r.hist[i].name : i \in 1..Len(r.hist)}
